@@ -470,7 +470,11 @@ TopUidStale(S, c) == LET b == S.mb[Sel(S, c)] IN b.msgs # <<>> /\ TopUid(b.msgs)
 Sig(S, cmd) ==
   LET sel == IF cmd.op \in SelectedOps THEN Sel(S, cmd.c) ELSE NoName
       ro == sel # NoName /\ S.cn[cmd.c].ro IN
-  IF sel # NoName /\ cmd.uid /\ cmd.op \in SetOps /\ HasStar(cmd.set) /\ TopUidStale(S, cmd.c)
+  \* a write attempted on a read-only (EXAMINE) selection is its own class, whatever its set looks like
+  IF ro /\ (cmd.op \in {"STORE", "MOVE", "EXPUNGE", "UIDEXPUNGE", "CLOSE"}
+            \/ (cmd.op = "FETCH" /\ cmd.it.sec # 0 /\ ~cmd.it.peek))
+    THEN "examine/write-permitted"
+  ELSE IF sel # NoName /\ cmd.uid /\ cmd.op \in SetOps /\ HasStar(cmd.set) /\ TopUidStale(S, cmd.c)
     THEN "uid-star/after-expunge-of-highest"
   ELSE IF cmd.op = "SEARCH" /\ (\E j \in 1..Len(cmd.keys) : KeyUidStar(cmd.keys[j])) /\ TopUidStale(S, cmd.c)
     THEN "uid-star/after-expunge-of-highest"
